@@ -27,6 +27,7 @@ EXTRA_STATIC = [
     'struct { int x; struct { int y, z; } n[2]; } es46 = { .n[0].z = 5, 6 };', 'int es47[5] = { [2] = 1, 2, [0] = 3, 4 };', 'char es48[5] = { \'a\', [3] = \'d\' };',
     'double es49[] = { 1, 2.5f, -0.0, 1e300 };', 'float es50[] = { 0.1, 16777217, 1e-50 };', 'unsigned long es51 = -1; long es52 = 0x8000000000000000;', 'char es53 = 300 - 50; unsigned char es54 = -1;',
     'struct { unsigned long a : 50; unsigned long b : 14; } es55 = { 0x3ffffffffffff, 0x3fff };', 'struct { char c; int bf : 5; } es56 = { 1, -16 };', 'struct { int : 3; int v : 4; } es57 = { 7 };',
+    'unsigned short es58[3] = u"abc";', 'unsigned es61[2] = U"xy";', "__typeof__(L'a') es62[1] = L\"z\";", 'struct { unsigned short tag[4]; int after; } es63 = { u"abcd", 7 };', 'char es64[2][3] = { "abc", "de" };',
     'int es59 = { 5 };', 'char *es60 = { "q" };',
 ]
 
@@ -34,6 +35,7 @@ EXTRA_STATIC = [
 def static_unit(rng, ntypes):
     aggs = gen_types.gen_types(rng, ntypes, FEATURES)
     prefix = gen_init.SUPPORT + '\n'.join(a.definition() for a in aggs) + '\n'
+    rprefix = gen_init.SUPPORT + '\n'.join(a.definition(ref=True) for a in aggs) + '\n'
     g = gen_init.G(rng, True)
     decls = []
     k = 0
@@ -55,31 +57,31 @@ def static_unit(rng, ntypes):
                 text = '%s%s *%s = &(%s)%s;' % ('' if 'Thread' in st else st, a.cname, nm, a.cname, g.agg(a))
             decls.append(dataref.Decl(nm, text, [nm], meta=a, ref=text.replace('static ', 'static __attribute__((used)) ')))
             decls.append(dataref.Decl('al_' + nm, '', [], ref='const unsigned long al_%s = __alignof__(%s);' % (nm, nm)))
-    return prefix, decls
+    return prefix, rprefix, decls
 
 
 def _static(args):
     exe, idx, seed, target, wd = args
     rng = random.Random(seed)
     if idx < 0:
-        prefix = gen_init.SUPPORT
+        prefix = rprefix = gen_init.SUPPORT
         decls = []
         for i, t in enumerate(EXTRA_STATIC):
             names = re.findall(r'\b(es\d+)\b(?=[\[\]\w\s()*]*=)', t)
             decls.append(dataref.Decl('x%d' % i, t, sorted(set(names)), ref=t.replace('static ', 'static __attribute__((used)) ')))
     else:
-        prefix, decls = static_unit(rng, 8)
+        prefix, rprefix, decls = static_unit(rng, 8)
     sub = os.path.join(wd, 'u%d-%s' % (idx, target))
     os.makedirs(sub, exist_ok=True)
     res = {'idx': idx, 'target': target, 'n': 0, 'skips': {}, 'viol': [], 'nontrivial': 0}
-    obj, rrej, err = dataref.ref_images('clang', target, prefix, decls, sub, 'ref')
+    obj, rrej, err = dataref.ref_images('clang', target, rprefix, decls, sub, 'ref')
     if obj is None:
         res['skips']['ref-reject-unit'] = 1
         res['detail'] = err[:800]
         return res
     gobj = None
     if target == 'x86_64-sysv':
-        gobj, grej, gerr = dataref.ref_images('gcc', target, prefix, decls, sub, 'gref')
+        gobj, grej, gerr = dataref.ref_images('gcc', target, rprefix, decls, sub, 'gref')
     # a declaration and its alignment probe live and die together
     dead = set(rrej)
     for d in decls:
@@ -126,7 +128,7 @@ def auto_program(rng, ntypes):
     aggs = gen_types.gen_types(rng, ntypes, FEATURES - {'alignas'})
     g = gen_init.G(rng, False)
     L = ['int printf(const char *, ...);', gen_init.SUPPORT, 'int fn0(void) { return 10; } int fn1(void) { return 11; }']
-    L += [a.definition() for a in aggs]
+    L += [a.definition(ref=True) for a in aggs]
     body = []
     n = 0
     for a in aggs:
@@ -242,7 +244,7 @@ def run(tier):
         bad = img != b'\x02\0\0\0'
     if bad:
         ck.violation('witness:union-two-members', 'two designated members of one union: %s' % (r.err[-200:].decode('latin-1') or 'stale bytes of the earlier member'), {'input.c': wsrc})
-    p, d = static_unit(random.Random(2), 2)
+    p, rp_, d = static_unit(random.Random(2), 2)
     ck.sample({'static_declaration': d[0].text[:400]})
     ck.sample({'hand_written_forms': EXTRA_STATIC[:6]})
     ck.rule = ('static: 8 generated aggregate types x 3 initialised objects per unit (positional, designated, mixed, overriding, nested designators, brace elision, strings, '
